@@ -1005,7 +1005,12 @@ func deepProbes() map[string]func(n int) string {
 // segment as its tagged OK (RFC 3501 forbids it; a hostile or broken server does it anyway).
 // Whatever the bytes are, NewStartTLS returns, a command issued afterwards completes, Close
 // returns, and nothing reports a reader panic.
+var startTLSHangs int
+
 func feedStartTLS(w *hx.W, name string, okLine string, trailing []byte) {
+	if startTLSHangs >= 2 {
+		return // witnessed twice already; every further one costs a minute
+	}
 	desc := fmt.Sprintf("STARTTLS answered %q followed in the same segment by %s", okLine, hx.Hex(trailing, 300))
 	end := w.Begin("starttls/"+name, desc, 120*time.Second)
 	defer end()
@@ -1044,6 +1049,7 @@ func feedStartTLS(w *hx.W, name string, okLine string, trailing []byte) {
 	select {
 	case r = <-ch:
 	case <-time.After(60 * time.Second):
+		startTLSHangs++
 		fail("starttls-never-returns", "NewStartTLS has not returned 60 s after the server closed the connection\n"+hx.Goroutines("imapclient"))
 		cEnd.Close()
 		return
@@ -1065,6 +1071,7 @@ func feedStartTLS(w *hx.W, name string, okLine string, trailing []byte) {
 		select {
 		case <-done:
 		case <-time.After(60 * time.Second):
+			startTLSHangs++
 			fail("command-never-completes", "NOOP / Close after NewStartTLS have not returned 60 s after the server closed the connection\n"+hx.Goroutines("imapclient"))
 			cEnd.Close()
 			return
